@@ -675,6 +675,14 @@ def do_getitem(ctx, g, rng, c, d, s, orig, mstate, inp, tags, parent_nonfinite, 
     except ValueError as e:
         d2, err = None, ("value", repr(e)[:200])
     ctx.evaluated(rel, (g["kind"], g["index"], "getitem", k) if sel and sel != list(range(n)) else None)
+    if not sel:
+        # an empty selection has no earliest time: whether it raises (default reference epoch) or yields an empty
+        # object (reference epoch carried over) is not determined by the property; it must not invent observations
+        ctx.count("getitem:empty-raises" if err is not None else "getitem:empty-object")
+        if err is None and len(d2) != 0:
+            report(ctx, rel, g, ginp, dict(n=len(d2)), None, "an empty selection yields no observations",
+                   tags=dict(gtags, what="rows"))
+        return
     if err is not None:
         m2 = ctx.model({"op": "data.getitem", "data": mstate, "sel": sel, "perm": []})
         if m2.get("error") != "value" or sel:
